@@ -70,7 +70,8 @@ class ContentsFile(contentsSet):
                     gid=os_data.root_gid,
                     perms=0o644,
                 )
-            return readlines_utf8(self._source, True)
+            # only the line terminator is stripped: trailing whitespace belongs to the path
+            return (x.rstrip("\n") for x in readlines_utf8(self._source, False))
         fobj = self._source.text_fileobj(writable=write)
         if write:
             fobj.seek(0, 0)
